@@ -148,6 +148,7 @@ impl PartialOrd for Fl {
     # ---- axioms on the uninterpreted real functions (each is an assumption; listed in the evidence)
     w("""
 pub proof fn ax_recip(x: real) requires x != 0real ensures x * recip_r(x) == 1real { admit(); }
+pub proof fn ax_recip_sign(x: real) ensures x > 0real ==> recip_r(x) > 0real, x < 0real ==> recip_r(x) < 0real { admit(); }
 pub proof fn ax_sqrt(x: real) requires x >= 0real ensures sqrt_r(x) * sqrt_r(x) == x, sqrt_r(x) >= 0real { admit(); }
 pub proof fn ax_cbrt(x: real) ensures cbrt_r(x) * cbrt_r(x) * cbrt_r(x) == x { admit(); }
 pub proof fn ax_sin_cos(x: real) ensures sin_r(x) * sin_r(x) + cos_r(x) * cos_r(x) == 1real { admit(); }
